@@ -1,7 +1,7 @@
 """C14 — the extinction law is normalised at V, unit-free and zero outside its table.
 
 Correspondence: Extinction.get_av(wavelengths) for generated opacity tables (2..200 rows, wavelengths in
-micron / nm / m, opacities in cm^2/g / m^2/kg), used directly, after a pickle round trip, after
+micron / nm / m, opacities in cm^2/g / m^2/kg / cm^2/kg / m^2/g), used directly, after a pickle round trip, after
 to_table/from_table, and after Extinction.from_file with a column selection; queries inside / outside / on
 nodes / at V in micron, nm, m.  Model side: driver op `getav` (SF.getAv, exact rationals) on the table,
 V = 0.55 micron and the queries converted to the table's wavelength unit in float exactly as the code does.
@@ -33,7 +33,7 @@ REQUIRED_BRANCHES = ['query_inside', 'query_outside_low', 'query_outside_high', 
                      'tab_micron', 'tab_nm', 'tab_m', 'tab_AA', 'tab_cm', 'tab_mm',
                      'query_micron', 'query_nm', 'query_m', 'query_AA', 'query_cm', 'query_mm',
                      'query_shape_0d', 'query_shape_1d', 'query_shape_2d', 'v_first_node', 'v_last_node',
-                     'chi_cm2_g', 'chi_m2_kg', 'via_direct', 'via_pickle', 'via_table', 'via_file',
+                     'chi_cm2_g', 'chi_m2_kg', 'chi_cm2_kg', 'chi_m2_g', 'via_direct', 'via_pickle', 'via_table', 'via_file',
                      'rows_2', 'rows_200',
                      'hist_chi_scale', 'hist_chi_new', 'hist_wav_unit', 'hist_wav_new', 'hist_table', 'hist_pickle',
                      'hist_alias_from_table', 'hist_alias_to_table', 'hist_alias_pickle']
@@ -54,6 +54,7 @@ BOUNDARY_FINDING = 'Extinction.get_av:boundary-unit-conversion'   # match key fo
 REPORT_BOUNDARY_FINDING = False
 BOUNDARY_NOTES = []
 VIAS = ['direct', 'pickle', 'table', 'file']
+CHI_UNITS = ['cm2/g', 'm2/kg', 'cm2/kg', 'm2/g']
 
 
 def dec(mant, exp):
@@ -77,7 +78,7 @@ def gen_case(rng, directed=None):
     directed = directed or {}
     nrows = directed.get('rows') or rng.choice([2, 2, 3, 4, 5, 8, 12, 20, 40, 80, 200])
     tab_unit = directed.get('tab_unit') or rng.choice(list(UNIT_EXP))
-    chi_unit = directed.get('chi_unit') or rng.choice(['cm2/g', 'm2/kg'])
+    chi_unit = directed.get('chi_unit') or rng.choice(CHI_UNITS)
     via = directed.get('via') or rng.choice(VIAS)
     # table nodes in micron as (mantissa, exponent); must cover 0.55
     lo = gen_mant(rng, 0.01, 0.5, 2)
@@ -185,9 +186,9 @@ DIRECTED = [
 # V = 0.55 micron as the first / last node of the table, in every wavelength unit; queries in another unit too
 for _k, _unit in enumerate(['micron', 'nm', 'AA', 'cm', 'm', 'mm']):
     _other = ['cm', 'micron', 'micron', 'micron', 'AA', 'nm'][_k]
-    DIRECTED.append(dict(rows=[3, 2, 5][_k % 3], tab_unit=_unit, v_node='first', via=VIAS[_k % 4],
+    DIRECTED.append(dict(rows=[3, 2, 5][_k % 3], tab_unit=_unit, v_node='first', via=VIAS[_k % 4], chi_unit=CHI_UNITS[_k % 4],
                          query_units=[_unit, 'micron', _other], history=['chi_scale']))
-    DIRECTED.append(dict(rows=[4, 2, 12][_k % 3], tab_unit=_unit, v_node='last', via=VIAS[(_k + 1) % 4],
+    DIRECTED.append(dict(rows=[4, 2, 12][_k % 3], tab_unit=_unit, v_node='last', via=VIAS[(_k + 1) % 4], chi_unit=CHI_UNITS[(_k + 2) % 4],
                          query_units=['micron', _unit, _other], history=['chi_new']))
 
 
@@ -201,7 +202,8 @@ def gen_cases(seed, tier):
 
 def units():
     from astropy import units as u
-    return {'micron': u.micron, 'nm': u.nm, 'm': u.m, 'AA': u.AA, 'cm': u.cm, 'mm': u.mm, 'cm2/g': u.cm ** 2 / u.g, 'm2/kg': u.m ** 2 / u.kg}
+    return {'micron': u.micron, 'nm': u.nm, 'm': u.m, 'AA': u.AA, 'cm': u.cm, 'mm': u.mm, 'cm2/kg': u.cm ** 2 / u.kg,
+            'm2/g': u.m ** 2 / u.g, 'cm2/g': u.cm ** 2 / u.g, 'm2/kg': u.m ** 2 / u.kg}
 
 
 def build(case, d, wav=None, chi=None, tab_unit=None, chi_unit=None, via=None):
@@ -235,6 +237,10 @@ def build(case, d, wav=None, chi=None, tab_unit=None, chi_unit=None, via=None):
     return e
 
 
+class PatternUnitError(ValueError):
+    pass
+
+
 def av_values(e, vals, unit, shape='1d'):
     """get_av on a 0-d, 1-d or 2-D Quantity; the result flattened in C order"""
     from astropy import units as u
@@ -246,7 +252,16 @@ def av_values(e, vals, unit, shape='1d'):
     else:
         q = a * unit
     r = e.get_av(q)
-    out = np.asarray(u.Quantity(r).to_value(u.dimensionless_unscaled), dtype=float)
+    # the pattern is unit-free: a plain array, or a Quantity whose unit is exactly dimensionless-unscaled (scale 1,
+    # no bases); its bare numbers (.value) are what multiplies A_V in the fitter and what is compared with the model
+    if isinstance(r, u.Quantity):
+        if len(r.unit.bases) != 0 or r.unit.scale != 1:
+            raise PatternUnitError('get_av returned a Quantity in %r (scale %r) instead of a bare / dimensionless-unscaled '
+                                   'pattern; bare numbers %r' % (r.unit.to_string(), r.unit.scale,
+                                                                 np.ravel(r.value)[:3].tolist()))
+        out = np.asarray(r.value, dtype=float)
+    else:
+        out = np.asarray(r, dtype=float)
     if shape == '2d' and out.shape != (2, len(vals) // 2):
         raise ValueError('get_av returned shape %r for a (2, %d) query' % (out.shape, len(vals) // 2))
     return out.ravel()
@@ -319,7 +334,8 @@ def compare(e, wav, chi, tab_unit, queries, drv, branches, label, via, relaxed):
                 got = av_values(e, q['values'], qu, q.get('shape', '1d'))
         except Exception as ex:
             return CaseResult(False, violates=True, branches=sorted(branches),
-                              detail='%s: get_av raised %s: %s' % (label, type(ex).__name__, ex)), nontrivial
+                              detail=('%s: %s' % (label, ex)) if isinstance(ex, PatternUnitError) else
+                              '%s: get_av raised %s: %s' % (label, type(ex).__name__, ex)), nontrivial
         xs = [float(x) for x in (np.array(q['values'], dtype=float) * qu).to(wu).value]
         t = drv.ask('getav %s %d %s %s' % (rat(v), len(wav), tab_txt, rats(xs)))
         model = t.rats()
@@ -510,7 +526,7 @@ def metamorphic(case, d, e):
         e2 = build(case, d, chi=[c * case['chi_factor'] for c in case['chi']], via='direct')
         r2 = av_values(e2, q['values'], qu)
         # (b) the same opacities expressed in the other opacity unit
-        other = 'm2/kg' if case['chi_unit'] == 'cm2/g' else 'cm2/g'
+        other = CHI_UNITS[(CHI_UNITS.index(case['chi_unit']) + 1) % len(CHI_UNITS)]
         chi_o = (np.array(case['chi'], dtype=float) * U[case['chi_unit']]).to(U[other]).value
         e3 = build(case, d, chi=list(chi_o), chi_unit=other, via='direct')
         r3 = av_values(e3, q['values'], qu)
